@@ -4,13 +4,15 @@
    any process), crashes, lease revocations, cursor rewinds and duplicated deliveries; [hist_ok] excludes only stale reads
    (C04) and negative clock steps.
    PARTIAL: the statement "at quiescence every run's final status and object equal those of the failure-free execution"
-   is NOT proved as one theorem; what is proved is its three ingredients — nothing is stranded (below), the persisted
-   effect of a function is applied on the persisted version only and moves the version by exactly one (exactly-once
-   effect), and the object a function sees and leaves is the persisted one
-   (C16_fresh_view + C16_object_iff: the function sees, and its write hands over, the persisted object). The quiescent-final comparison itself is checked by the correspondence monitor on every
-   generated history (ocaml/monitors_engine.ml, clause C01). *)
+   is NOT proved as one theorem; what is proved is its ingredients — nothing is stranded (C01_not_stranded ...), the
+   persisted effect of a function is applied on the persisted version only and moves the version by exactly one
+   (exactly-once effect), and WHAT a step / callback / timeout handler writes is, for every state and fault plan, either a
+   pause / cancel keeping the status and object the function saw, or exactly the failure-free outcome of the configured
+   function on the record it saw (C01_effect_is_failure_free_step, _timeout, _callback), where the record it saw is the persisted one
+   (C16_fresh_view). The quiescent-final comparison itself is checked by the correspondence monitor on every generated
+   history (ocaml/monitors_engine.ml, clause C01). *)
 From WF Require Import model.Base model.RunState model.Routing model.Graph model.Shard model.EngineBase model.Engine model.Monitors
-  proofs.EngineInv proofs.EngineTokens proofs.EngineProps proofs.MonitorProofs proofs.Delivery proofs.DeliveryProps.
+  proofs.EngineInv proofs.EngineTokens proofs.EngineProps proofs.MonitorProofs proofs.Delivery proofs.DeliveryProps proofs.EffectFacts.
 
 (* No run is left stranded with an unpublished or unprocessed change. For every committed write that left a run Initiated or
    Running at status s, and the step consumer (shard i of n) of s: the announcement is still in the outbox (the relay will
@@ -55,3 +57,44 @@ Print Assumptions C01_effect_on_persisted_version.
 Theorem C01_one_version_per_write : forall c ops, hist_ok ops -> forall p r a, In (TStore (Some p) r a) (trace_of c ops) -> r_ver r = r_ver p + 1.
 Proof. intros c ops H p r a Hin. apply (p_identity_versions c ops H (Some p) r a Hin). Qed.
 Print Assumptions C01_one_version_per_write.
+
+(* SAME EFFECT AS THE FAILURE-FREE EXECUTION. For EVERY state (world, fault plan at every call, lease and crash flags, attempt
+   counters, error counters): in the trace of a step consumer's handler every Store sits directly on top of the invocation that
+   explains it ([adv_ok], proofs/EffectFacts.v) — a controller write (pause / cancel by the function or by the error count)
+   that keeps run, status and object of the record handed to the function, or the updater's write whose status is what the
+   configured function returns ONCE ITS TRANSIENT FAILURES ARE OVER ([final_beh]) and whose object is the one it leaves.
+   Faults, retries and redeliveries decide whether and when a write happens, never what is written. *)
+Theorem C01_effect_is_failure_free_step : forall c inst u st sc n e s,
+  find_step c st = Some sc -> adv_ok c (o_trace s) ->
+  adv_ok c (o_trace (snd (step_handler c inst u st (invoke c (UFStep st) (sc_beh sc) st) n e s))).
+Proof. exact step_handler_adv. Qed.
+Print Assumptions C01_effect_is_failure_free_step.
+
+(* the same for a poll cycle of the timeout poller over any list of due timers ... *)
+Theorem C01_effect_is_failure_free_timeout : forall c inst u st n l s,
+  adv_ok c (o_trace s) -> adv_ok c (o_trace (snd (poll_timers c inst u st n l s))).
+Proof. exact poll_timers_adv. Qed.
+Print Assumptions C01_effect_is_failure_free_timeout.
+
+(* ... and for Callback *)
+Theorem C01_effect_is_failure_free_callback : forall c fid status s,
+  adv_ok c (o_trace s) -> adv_ok c (o_trace (snd (api_callbacks c fid status (ec_cbs c) 0 s))).
+Proof. intros c fid status s. apply (api_callbacks_adv c fid status (ec_cbs c) (fun x H => H) 0%nat s). Qed.
+Print Assumptions C01_effect_is_failure_free_callback.
+
+(* what [adv_ok] says about a Store token *)
+Theorem C01_adv_ok_reads : forall c p r a tr, adv_ok c (TStore p r a :: tr) ->
+  (exists u view pers now pl tr', tr = TUser u view pers now pl :: tr' /\ expl_ctl view r) \/
+  (exists k key res lk u view pers now z tr', tr = TLookup k key res lk :: TUser u view pers now (URet z) :: tr' /\ expl_adv c u view z r).
+Proof.
+  intros c p r a tr H. inversion H as [|t tr' Hn Hr|p' r' a' u view pers now pl tr' He Hr|p' r' a' k key res lk u view pers now z tr' He Hr]; subst.
+  - destruct Hn.
+  - left. eauto 10.
+  - right. eauto 12.
+Qed.
+Print Assumptions C01_adv_ok_reads.
+
+(* determinism of the failure-free outcome: the attempt number never changes a returned status *)
+Theorem C01_retries_do_not_change_the_outcome : forall b n seed m z, eval_beh b n seed = (m, ARet z) -> final_beh b seed = (m, ARet z).
+Proof. exact eval_final. Qed.
+Print Assumptions C01_retries_do_not_change_the_outcome.
